@@ -41,12 +41,37 @@ DIRECT_EDIT_SIG = "direct-edit-of-preprocessing-setting"
 
 def gen_op(w, rng, focus):
     """choose the next operation; arguments may be caller-held objects (by reference)"""
+    last = getattr(w, "last_mut", None)
+    w.last_mut = None
+    if last is not None and rng.random() < 0.7:
+        # an object was just edited in place: hand it in again
+        if last in ("steps", "opts"):
+            return {"op": "pp", "steps": w.obj["steps"], "opts": w.obj["opts"], "rd": False,
+                    "via_fit": rng.random() < 0.4}
+        if last == "params":
+            return {"op": "fit", "kw": {"params_initial": w.obj["params"], "model_key": "hertz_para"}}
+        if last == "method_kws":
+            return {"op": "fit", "kw": {"method_kws": w.obj["method_kws"]}}
+        if last == "range":
+            return {"op": "fit", "kw": {"range_x": w.obj["range"]}}
+        if last == "names":
+            return {"op": "rate", "regressor": "Extra Trees", "ts": 0, "names": "OBJ", "lda": None}
     r = rng.random()
     wpp, wfit, wset, wrate, wmut = focus
     tot = wpp + wfit + wset + wrate + wmut
     r *= tot
     if r < wpp:
         c = rng.random()
+        if c < 0.12 and "preprocessing" in w.idnt.fit_properties:
+            # the pipeline that is already applied, again (with and without details)
+            fp = w.idnt.fit_properties
+            return {"op": "pp", "steps": copy.deepcopy(fp["preprocessing"]),
+                    "opts": copy.deepcopy(fp.get("preprocessing_options", {})), "rd": rng.random() < 0.6,
+                    "via_fit": False}
+        if c < 0.22:
+            # the public attributes idnt.preprocessing / preprocessing_options edited in place by the
+            # caller, then apply_preprocessing() with its None defaults
+            return {"op": "pp", "steps": "ATTR", "opts": "ATTR", "rd": False, "via_fit": False}
         if c < 0.55:
             steps, opts = copy.deepcopy(rng.choice(VALID_PIPES))
         elif c < 0.8:
@@ -140,14 +165,30 @@ def exec_op(ctx, w, op, rng, check_fresh):
     line = None
     if op["op"] == "mut":
         do_mut(w, op["which"], rng)
+        w.last_mut = op["which"]
         return None, None
+    attr_call = False
+    if op["op"] == "pp" and op["steps"] == "ATTR":
+        # caller edits the public attribute objects in place, then calls with the None defaults
+        attr_call = True
+        pre = idnt.preprocessing
+        if "correct_force_offset" in pre:
+            pre.remove("correct_force_offset")
+        elif "compute_tip_position" in pre:
+            pre.insert(1, "correct_force_offset")
+        else:
+            pre.append("compute_tip_position")
+        op = dict(op, steps=pre, opts=idnt.preprocessing_options)
     if op["op"] == "pp" and not op.get("via_fit"):
         args = [op["steps"], op["opts"]]
         line = {"op": "pp", "steps": [ids.get(s, 100 + i) for i, s in enumerate(op["steps"])],
                 "opts": tok(op["opts"]), "optErr": histlib.opt_errors(op["steps"], op["opts"]), "rd": op["rd"]}
 
         def call():
-            idnt.apply_preprocessing(op["steps"], op["opts"], ret_details=op["rd"])
+            if attr_call:
+                idnt.apply_preprocessing()
+            else:
+                idnt.apply_preprocessing(op["steps"], op["opts"], ret_details=op["rd"])
     elif op["op"] in ("pp", "fit"):
         kw = dict(op.get("kw", {}))
         if op["op"] == "pp":
@@ -201,7 +242,7 @@ def exec_op(ctx, w, op, rng, check_fresh):
             warnings.simplefilter("ignore")
             line["guess"] = {mk: histlib.params_states(guess_initial_parameters(idnt, model_key=mk))
                              for mk in ("hertz_para", "hertz_cone")}
-    desc = describe(op)
+    desc = describe(op) + (" [idnt.preprocessing edited in place, called with defaults]" if attr_call else "")
     w.history.append(desc)
     if before != after:
         ctx.violation("argument-mutated:" + op["op"], f"{desc} modified an object handed to it",
@@ -215,6 +256,17 @@ def exec_op(ctx, w, op, rng, check_fresh):
         if outcome != "ok":
             ctx.violation("rate-quality-raises:" + outcome, f"rate_quality raised ({outcome}) in state after "
                           f"{w.history[-4:]}", {"history": list(w.history)})
+        elif op["regressor"].lower() != "none" and getattr(ctx, "check_rating_value", False):
+            # the value (possibly served from the cache) equals what the standalone rater computes now
+            from nanite.rate import rater as nrater
+            with warnings.catch_warnings():
+                warnings.simplefilter("ignore")
+                ref = nrater.get_rater(regressor=op["regressor"], training_set=(ts[0].copy(), ts[1].copy()),
+                                       names=copy.deepcopy(names), lda=op["lda"]).rate(datasets=idnt)[0]
+            if not (ref == v or (np.isnan(ref) and np.isnan(v))):
+                ctx.violation("stale-or-wrong-rating:" + op["regressor"],
+                              f"rate_quality returned {v!r} but the standalone rater computes {ref!r} for the "
+                              f"current state ({desc})", {"history": list(w.history)})
     if check_fresh:
         for sig, what in w.fresh_oracle():
             direct = any(h.startswith("set preprocessing") for h in w.history)
@@ -261,7 +313,77 @@ def defaults_line(step_ids):
     return {"op": "defaults", "kw": [[k, canon_v(k, v, step_ids)] for k, v in nfit.FP_DEFAULT.items()]}
 
 
-def run_histories(ctx, pid, focus, nhist, check_fresh=True, direct_pp_edits=True):
+P1 = (["compute_tip_position", "correct_tip_offset"], {"correct_tip_offset": {"method": "deviation_from_baseline"}})
+P2 = (["compute_tip_position", "correct_force_offset", "correct_tip_offset"], {})
+
+
+def reduced_alphabet():
+    """operation factories (w -> op) of the reduced alphabet that is enumerated exhaustively"""
+    def pp(pipe, rd=False, via=False):
+        return lambda w: {"op": "pp", "steps": copy.deepcopy(pipe[0]), "opts": copy.deepcopy(pipe[1]), "rd": rd,
+                          "via_fit": via}
+    return [
+        ("pp(P1)", pp(P1)), ("pp(P1, ret_details)", pp(P1, rd=True)), ("pp(P2)", pp(P2)),
+        ("pp(invalid)", pp(INVALID_PIPES[0])), ("fit(preprocessing=P1)", pp(P1, via=True)),
+        ("fit()", lambda w: {"op": "fit", "kw": {}}),
+        ("fit(params=OBJ)", lambda w: {"op": "fit", "kw": {"params_initial": w.obj["params"],
+                                                          "model_key": "hertz_para"}}),
+        ("fit(weight_cp=0)", lambda w: {"op": "fit", "kw": {"weight_cp": 0}}),
+        ("fit(range relative)", lambda w: {"op": "fit", "kw": {"range_type": "relative cp",
+                                                              "range_x": w.obj["range"]}}),
+        ("edit params slightly", lambda w: {"op": "mut", "which": "params", "tiny": True}),
+        ("edit nested option; pp(OBJ)", lambda w: [{"op": "mut", "which": "opts"},
+                                                   {"op": "pp", "steps": w.obj["steps"], "opts": w.obj["opts"],
+                                                    "rd": False, "via_fit": False}]),
+        ("edit idnt.preprocessing; pp()", lambda w: {"op": "pp", "steps": "ATTR", "opts": "ATTR", "rd": False,
+                                                     "via_fit": False}),
+        ("rate(SVR, lda=None)", lambda w: {"op": "rate", "regressor": "SVR (RBF kernel)", "ts": 0, "names": None,
+                                           "lda": None}),
+        ("rate(SVR, lda=False)", lambda w: {"op": "rate", "regressor": "SVR (RBF kernel)", "ts": 0, "names": None,
+                                            "lda": False}),
+        ("set weight_cp", lambda w: {"op": "set", "key": "weight_cp", "value": 5e-7}),
+    ]
+
+
+def run_directed(ctx, lines, expect, hists, check_fresh, which=None, cid=0):
+    """all pairs of the reduced alphabet, after the prefixes [], [pp(P1)] and [pp(P1), fit()]"""
+    alpha = reduced_alphabet()
+    if which is not None:
+        alpha = [a for a in alpha if which(a[0])]
+    prefixes = [[], [alpha[0]], [alpha[0], ("fit()", lambda w: {"op": "fit", "kw": {}})]]
+    n = 0
+    for pre in prefixes:
+        for a in alpha:
+            for b_ in alpha:
+                if ctx.tier == "quick" and pre == [] and (n % 2):
+                    n += 1
+                    continue
+                n += 1
+                w = histlib.World(cid, ctx.rng)
+                lines.append({"op": "new"})
+                expect.append(None)
+                hists.append(None)
+                for name, fac in pre + [a, b_]:
+                    ops = fac(w)
+                    for op in (ops if isinstance(ops, list) else [ops]):
+                        if op["op"] == "mut" and op.get("tiny"):
+                            o = w.obj["params"]
+                            o["R"].value = o["R"].value * 1.0008
+                            o["E"].value = o["E"].value * 1.000001
+                            w.last_mut = None
+                            w.history.append("edit params in place (R x 1.0008, E x 1.000001)")
+                            continue
+                        line, obs = exec_op(ctx, w, op, ctx.rng, check_fresh)
+                        if line is None:
+                            continue
+                        lines.append(line)
+                        expect.append((op, obs))
+                        hists.append(list(w.history))
+                ctx.case({"directed": [x[0] for x in pre + [a, b_]]},
+                         nontrivial="dir:" + "|".join(x[0] for x in pre + [a, b_]), bucket="stream=directed")
+
+
+def run_histories(ctx, pid, focus, nhist, check_fresh=True, direct_pp_edits=True, directed=None):
     from nanite import preproc
     rng = ctx.rng
     lines, expect, hists = [], [], []
@@ -291,6 +413,9 @@ def run_histories(ctx, pid, focus, nhist, check_fresh=True, direct_pp_edits=True
                  bucket=["stream=histories"] + ["op=" + h_.split("(")[0].split(" ")[0] for h_ in w.history])
     if direct_pp_edits:
         replay_witness(ctx)
+    if directed is not False:
+        run_directed(ctx, lines, expect, hists, check_fresh, which=directed,
+                     cid=2 if getattr(ctx, "check_rating_value", False) else 0)
     out = ctx.driver("Indent", lines)
     if out is None:
         return
@@ -363,7 +488,7 @@ def run(ctx):
                 "the Lean model AND with a fresh object on which only the stored pipeline and settings are "
                 "applied; non-trivial = distinct history")
     common_setup(ctx, "C03")
-    run_histories(ctx, "C03", focus=(2, 5, 2.5, 0.6, 2), nhist=45 if ctx.tier == "quick" else 1200)
+    run_histories(ctx, "C03", focus=(2, 5, 2.5, 0.6, 2), nhist=80 if ctx.tier == "quick" else 1200)
 
 
 def replay(ctx, path):
